@@ -84,6 +84,14 @@ var apiTexts = map[string]string{
 	"docEsc":        `{"caf\u00e9 au lait, s'il vous pla\u00eet":1,"long name with a \"quote\" and a \t tab in it":[2],"caf\u00e9":"\u00e9\ud83d\ude00 \u00fc","a\u002fb":[1,"\u00df"],"k\u0039":{"\u00e0":null}}`,
 	"patchEsc":      `[{"op":"add","path":"/caf\u00e9x","value":"\u00fc\u00df"},{"op":"test","path":"/a~1b/0","value":1},{"op":"copy","from":"/k9","path":"/c\u00f9"},{"op":"test","path":"/caf\u00e9","value":"\u00e9\ud83d\ude00 \u00fc"}]`,
 	"patchArrRepl":  `[{"op":"add","path":"/a/b/0","value":"the first, rather long value"},{"op":"copy","from":"/a/b/0","path":"/kept"},{"op":"replace","path":"/a/b/0","value":"short"},{"op":"add","path":"/a/b/1","value":{"name":"original"}},{"op":"replace","path":"/a/b/1","value":7}]`,
+	"arrBad":        `[1,{"a":1},"s",{"b":2},[3]]`,
+	"docDup":        `{"a":1,"b":2,"a":3,"c":{"x":1,"y":2,"x":3,"z":[{"k":1,"k":2,"j":0}]}}`,
+	"patchDup":      `[{"op":"add","path":"/c/w","value":1},{"op":"test","path":"/b","value":2}]`,
+	"docArrA":       `{"y":[{"a":1,"b":2},{"c":[1]}],"z":[[1,2],{"q":null}]}`,
+	"docArrB":       `{"y":[{"b":2},{"d":[2]}],"z":[[3],{"r":1}]}`,
+	"patchTstArrA":  `[{"op":"test","path":"/y","value":[{"a":1,"b":2},{"c":[1]}]},{"op":"test","path":"/z","value":[[1,2],{"q":null}]},{"op":"copy","from":"/y","path":"/w"},{"op":"add","path":"/w/0/n","value":1}]`,
+	"patchTstArrB":  `[{"op":"test","path":"/y","value":[{"b":2},{"d":[2]}]},{"op":"test","path":"/z","value":[[3],{"r":1}]},{"op":"copy","from":"/y","path":"/w"},{"op":"add","path":"/w/1/n","value":1}]`,
+	"patchTstArrF":  `[{"op":"test","path":"/y","value":[{"a":1,"b":2,"extra":true},{"c":[1]}]}]`,
 	"patch64":       `[{"op":"add","path":"/n","value":{"v":1}},{"op":"test","path":"/n/v","value":1}]`,
 	"patchBad":      `[{"op":"add","path":"/w","value":1},`,
 	"patchInv":      `[{"op":"add","path":"/w"}]`,
@@ -274,6 +282,12 @@ func newAPIWorld() *apiWorld {
 		{"Equal(deep3k,deep3k) [nesting 3000: several at once exceed any process-wide depth budget]", true, func(w *apiWorld) ([]byte, error) { return boolBytes(v5.Equal(B("deep3k"), B("deep3k"))), nil }},
 		{"ParrRepl.Apply(docObj) [add into an array slot, copy it, replace it - twice]", true, func(w *apiWorld) ([]byte, error) { return w.patches["patchArrRepl"].Apply(B("docObj")) }},
 		{"MergePatch(docEsc,mp1) [long member names with escapes]", false, func(w *apiWorld) ([]byte, error) { return v5.MergePatch(B("docEsc"), B("mp1")) }},
+		{"Pdup.Apply(docDup) [repeated member names at two levels]", true, func(w *apiWorld) ([]byte, error) { return w.patches["patchDup"].Apply(B("docDup")) }},
+		{"Pdup.ApplyIndent(docDup) [repeated member names at two levels]", true, func(w *apiWorld) ([]byte, error) { return w.patches["patchDup"].ApplyIndent(B("docDup"), " ") }},
+		{"PtstArrA.Apply(docArrA) [tests and copies of arrays of objects]", true, func(w *apiWorld) ([]byte, error) { return w.patches["patchTstArrA"].Apply(B("docArrA")) }},
+		{"PtstArrB.Apply(docArrB) [the same shapes, other member names]", true, func(w *apiWorld) ([]byte, error) { return w.patches["patchTstArrB"].Apply(B("docArrB")) }},
+		{"PtstArrF.Apply(docArrA) [failing test of an array of objects]", true, func(w *apiWorld) ([]byte, error) { return w.patches["patchTstArrF"].Apply(B("docArrA")) }},
+		{"CreateMergePatch(arrBad,arrBad) [three elements that are not objects]", true, func(w *apiWorld) ([]byte, error) { return v5.CreateMergePatch(B("arrBad"), B("arrBad")) }},
 		// rejected inputs with very many open containers (the scanner keeps / drops its stack)
 		{"Equal(deepOpen,docObj) [2000 unclosed brackets]", true, func(w *apiWorld) ([]byte, error) { return boolBytes(v5.Equal(B("deepOpen"), B("docObj"))), nil }},
 		{"P.Apply(deepOver) [nesting 10001]", true, func(w *apiWorld) ([]byte, error) { return w.patches["patchOK"].Apply(B("deepOver")) }},
@@ -379,7 +393,7 @@ func decodeOnly(b []byte) ([]byte, error) {
 }
 
 func (w *apiWorld) decodePatches() {
-	for _, k := range []string{"patchOK", "patchArr", "patchTst", "patchNeg", "patchCopyFail", "patchCopyBig", "patchBig", "patchDeep", "patchWide", "patchS", "patchTstS", "rootPatchS", "patchMoveFail", "patchRmAbsent", "patchBigVal", "patchEsc", "patch64", "patchArrRepl"} {
+	for _, k := range []string{"patchOK", "patchArr", "patchTst", "patchNeg", "patchCopyFail", "patchCopyBig", "patchBig", "patchDeep", "patchWide", "patchS", "patchTstS", "rootPatchS", "patchMoveFail", "patchRmAbsent", "patchBigVal", "patchEsc", "patch64", "patchArrRepl", "patchDup", "patchTstArrA", "patchTstArrB", "patchTstArrF"} {
 		p, err := v5.DecodePatch([]byte(apiTexts[k])) // from a private copy: the Patch must not alias a shared buffer
 		if err != nil {
 			panic("harness patch " + k + ": " + err.Error())
